@@ -68,9 +68,17 @@ PLURAL_FORMS = ['nplurals=2; plural=n != 1;', 'nplurals=1; plural=0;', 'nplurals
                 'nplurals=3; plural=n==1 ? 0 : n%10>=2 && n%10<=4 && (n%100<10 || n%100>=20) ? 1 : 2;', 'nplurals=2; plural=n/0;',
                 'nplurals=3; plural=(n%10==1 && n%100!=11 ? 0 : n%10>=2 && n%10<=4 && (n%100<10 || n%100>=20) ? 1 : 2);', 'nplurals=4; plural=n%5;']
 
-def gen_header(rng, family, defects=True):
+def gen_header(rng, family, defects=True, date_bias=False):
     """→ list of (name | None, value); Content-Type stays well-formed (value None = to be filled in per charset)"""
     fields = [list(f) for f in HEADER_BASE]
+    if date_bias:        # the date fields are where PO and MO files are treated differently
+        for name, p_drop, p_dup in (('POT-Creation-Date', 0.3, 0.1), ('PO-Revision-Date', 0.15, 0.1)):
+            r = rng.random()
+            i = [k for k, f in enumerate(fields) if f[0] == name][0]
+            if r < p_drop:
+                fields.pop(i)
+            elif r < p_drop + p_dup:
+                fields.insert(i, [name, rng.choice(['2012-11-01 14:42+0100', '2013-01-01 00:00+0000'])])
     for f in fields:
         if f[0] == 'Language':
             f[1] = rng.choice(FAMILIES[family]['lang'])
@@ -111,7 +119,7 @@ def header_text(fields, charset):
 
 FORMAT_MSGS = [m for m in CAT.MSGS if m[1] != '' and all(ord(c) < 128 for s in [m[1]] + [m[2] or ''] + m[3] for c in s)]
 
-def gen_catalog(rng, family=None, po_features=True, fully_translated=False, defects=True, n=None):
+def gen_catalog(rng, family=None, po_features=True, fully_translated=False, defects=True, n=None, date_bias=False):
     """→ dict(family, header=[(k,v)], initial=str, msgs=[dict(ctxt,msgid,plural,forms,flags,comments,obsolete,previous)])
     Messages have distinct (ctxt, msgid); no NUL/EOT in text (MO-encodable)."""
     family = family or rng.choice(list(FAMILIES))
@@ -166,7 +174,7 @@ def gen_catalog(rng, family=None, po_features=True, fully_translated=False, defe
         initial = rng.choice(['# SOME DESCRIPTIVE TITLE.\n# Copyright (C) YEAR THE PACKAGE\'S COPYRIGHT HOLDER\n# FIRST AUTHOR <EMAIL@ADDRESS>, YEAR.\n#\n',
                               '# Polish translation\n# Copyright (C) 2012 Jakub Wilk\n#\n'])
     hflags = rng.choice([[], [], [], [], ['fuzzy']]) if po_features else []
-    return dict(family=family, header=gen_header(rng, family, defects=defects), hflags=hflags, initial=initial, msgs=msgs)
+    return dict(family=family, header=gen_header(rng, family, defects=defects, date_bias=date_bias), hflags=hflags, initial=initial, msgs=msgs)
 
 def all_strings(cat):
     for k, v in cat['header']:
